@@ -42,8 +42,9 @@ def composed(pid, name):
 
 
 COMPOSED_OF = {
-    'C03': ('C05', 'C19'),                                   # lossless text + next state is a function of stored data
+    'C03': ('C05', 'C19', 'C04.mpi_stored'),                                   # lossless text + next state is a function of stored data
     'C04': ('C16', 'C10', 'C20.mpi_root_mode', 'C20.mpi_silent_nonroot'),
+    'C16': ('C04.mpi_collective_comm',),
     # C01: the weight formulas (C07.weight/index/left, C17.lazy_memo_value = the memoised weight IS jacobian/sum), the accumulated value is f*w,
     # the channel is drawn with the cumulative-sum distribution
     'C01': ('C02.ret_fw', 'C02.acc_once', 'C02.ret_nonzero_weight', 'C07', 'C17.lazy_memo_value', 'C17.lazy_memo', 'C09'),
@@ -472,14 +473,14 @@ JOBS = [
          structs=_ST_VCHK + [dict(prelude='rngvec.h'), dict(unit='chkpt', cls='chkpt_with_rng', cls_targs_has='vegas_chkpt', cname='rng_vegas_chkpt'),
                              dict(cname='vpinst_Fn', opaque=True), dict(unit='drivers', cls='integrand', cname='integrand'), dict(cname='vpinst_VCb', opaque=True)],
          preludes=['opaque.h'], late_preludes=['stubs_cb2.h'], globals='size_t vp_cb_calls, vp_cb_seen_n; _Bool vp_cb_ret; const void *vp_cb_arg; size_t vp_it_count, vp_it_calls; const void *vp_it_gen; size_t vp_g_done; size_t vp_chk_last_gen, vp_add_calls; const void *vp_add_result; size_t vp_state_calls, vp_setup_calls, vp_setup_arg; const void *vp_state_obj, *vp_it_state, *vp_it_result; ' + _REFGHOST,
-         defines=['VP_ITMAX=65536', 'VP_NMAX=1048576'], props=['C04', 'C19', 'C12', 'C07'],
+         defines=['VP_ITMAX=65536', 'VP_NMAX=1048576'], props=['C04', 'C19', 'C12', 'C07', 'C03', 'C16'],
          trusted=['the callback is a nondeterministic stub (its rank-independence: job mpi_callback)', 'allreduce_result, the iteration, the refinement and the checkpoint are abstract, logged contracts here; discard amounts are job c16_tiling']),
     dict(name='mpi_plain_driver', functions=['mpi_plain', 'plain_iteration', 'rng_chkpt_plain_result_add', 'rng_chkpt_plain_result_generator', 'integrand_dimensions'],
          specs=['mpi_plain', 'iteration_abs', 'chkpt_abs'], harness_sections=['mpi_plain'], entry='h_mpi_plain', enforce='mpi_plain',
          replace=['plain_iteration', 'rng_chkpt_plain_result_add', 'rng_chkpt_plain_result_generator'], stub_bodies=['plain_iteration', 'rng_chkpt_plain_result_add', 'rng_chkpt_plain_result_generator'],
          structs=_ST_CHK + [dict(cname='vpinst_Fn', opaque=True), dict(unit='drivers', cls='integrand', cname='integrand'), dict(cname='vpinst_PCb', opaque=True)],
          preludes=['opaque.h'], late_preludes=['stubs_cb.h'], globals='size_t vp_cb_calls, vp_cb_seen_n; _Bool vp_cb_ret; const void *vp_cb_arg; size_t vp_it_count, vp_it_calls; const void *vp_it_gen; size_t vp_g_done; size_t vp_chk_last_gen, vp_add_calls; const void *vp_add_result;',
-         defines=['VP_ITMAX=65536', 'VP_NMAX=1048576'], props=['C04', 'C12'],
+         defines=['VP_ITMAX=65536', 'VP_NMAX=1048576'], props=['C04', 'C12', 'C03', 'C16'],
          trusted=['the callback is a nondeterministic stub (its rank-independence: job mpi_callback)', 'allreduce_result, the iteration and the checkpoint are abstract, logged contracts here; discard amounts are job c16_tiling']),
     dict(name='mpi_multi_channel_driver', functions=['mpi_multi_channel', 'multi_channel_iteration', 'rng_multi_channel_chkpt_add', 'rng_multi_channel_chkpt_generator', 'multi_channel_chkpt_channel_weights', 'multi_channel_chkpt_channels',
                                                      'multi_channel_integrand_channels', 'integrand_dimensions', 'multi_channel_chkpt_beta', 'multi_channel_chkpt_min_weight', 'multi_channel_result_adjustment_data', 'multi_channel_refine_weights'],
@@ -490,7 +491,7 @@ JOBS = [
                              dict(cname='vpinst_Fn', opaque=True), dict(unit='drivers', cls='integrand', cname='integrand'), dict(cname='vpinst_Map', opaque=True),
                              dict(unit='drivers', cls='multi_channel_integrand'), dict(cname='vpinst_MCb', opaque=True)],
          preludes=['opaque.h'], late_preludes=['stubs_cb2.h'], globals='size_t vp_cb_calls, vp_cb_seen_n; _Bool vp_cb_ret; const void *vp_cb_arg; size_t vp_it_count, vp_it_calls; const void *vp_it_gen; size_t vp_g_done; size_t vp_chk_last_gen, vp_add_calls; const void *vp_add_result; size_t vp_state_calls, vp_setup_calls, vp_setup_arg; const void *vp_state_obj, *vp_it_state, *vp_it_result; ' + _REFGHOST,
-         defines=['VP_ITMAX=65536', 'VP_NMAX=1048576'], props=['C04', 'C19', 'C12', 'C08'],
+         defines=['VP_ITMAX=65536', 'VP_NMAX=1048576'], props=['C04', 'C19', 'C12', 'C08', 'C03', 'C16'],
          trusted=['the callback is a nondeterministic stub (its rank-independence: job mpi_callback)', 'allreduce_result, the iteration, the refinement and the checkpoint are abstract, logged contracts here; discard amounts are job c16_tiling']),
     dict(name='multi_channel_driver', functions=['multi_channel', 'multi_channel_iteration', 'rng_multi_channel_chkpt_add', 'rng_multi_channel_chkpt_generator', 'multi_channel_chkpt_channel_weights', 'multi_channel_chkpt_channels', 'multi_channel_integrand_channels'],
          specs=['multi_channel', 'drivers_abs'], harness_sections=['multi_channel'], entry='h_multi_channel', enforce='multi_channel',
